@@ -415,6 +415,27 @@ def enum_generic_apex(tier):
                 yield {"kind": "toast", "depth": depth, "apex": list(p), "coordsys": "astronomical"}
 
 
+def decode_fuzz(fdp):
+    """bytes -> (kind, depth<=4, coordinate system, apex, filter) for the coverage-guided campaign"""
+    kind = ["generic", "toast", "filtered", "filtered"][fdp.ConsumeIntInRange(0, 3)]
+    depth = fdp.ConsumeIntInRange(0, 4)
+    case = {"kind": kind, "depth": depth}
+    if kind != "generic":
+        case["coordsys"] = "planetary" if fdp.ConsumeBool() else "astronomical"
+    if fdp.ConsumeBool():
+        n = fdp.ConsumeIntInRange(0, depth)
+        case["apex"] = [n, fdp.ConsumeIntInRange(0, 2**n - 1), fdp.ConsumeIntInRange(0, 2**n - 1)]
+    if kind == "filtered":
+        flips = []
+        for _ in range(fdp.ConsumeIntInRange(0, 12)):
+            n = fdp.ConsumeIntInRange(1, max(1, depth))
+            flips.append([n, fdp.ConsumeIntInRange(0, 2**n - 1), fdp.ConsumeIntInRange(0, 2**n - 1)])
+        case["filter"] = {"default": fdp.ConsumeBool(), "flip": sorted(flips)}
+        if depth == 0:
+            case["filter"] = {"default": True, "flip": []}
+    return case
+
+
 PARTS = [
     Part(
         "algebra_exhaustive",
@@ -452,6 +473,17 @@ PARTS = [
         enumerate=enum_generic_apex,
         shards={"quick": 8, "thorough": 16},
         describe="unfiltered generic and TOAST pyramids with every apex to level 3 for every depth to 4/5 (incl. apex depth == pyramid depth)",
+    ),
+    Part(
+        "fuzz_pyramids",
+        exec_pyramid,
+        decode=decode_fuzz,
+        instrument=["toasty.pyramid", "toasty.toast"],
+        examples={"quick": 6000, "thorough": 400000},
+        shards={"quick": 4, "thorough": 16},
+        budget_s={"quick": 60, "thorough": 1500},
+        engine="atheris (libFuzzer) coverage-guided, oracle inside the target",
+        describe="coverage-guided fuzzing of toasty.pyramid / toasty.toast: bytes decoded to (kind, depth<=4, apex, filter); the RefPyramid oracle runs inside the fuzz target; empty starting corpus",
     ),
     Part(
         "random_pyramids",
